@@ -155,7 +155,7 @@ func (t *tree) textOrTag(token item, until []itemType) (node ast.Node, halt bool
 		}
 		return &ast.RawTextNode{token.pos, textvalue}, false
 	case itemLeftDelim:
-		return t.beginTag(), false
+		return t.beginTag(token), false
 	case itemSoyDocStart:
 		return t.parseSoyDoc(token), false
 	default:
@@ -176,8 +176,8 @@ var specialChars = map[itemType]string{
 
 // beginTag parses the contents of delimiters (within a template)
 // The contents could be a command, variable, function call, expression, etc.
-// { already read.
-func (t *tree) beginTag() ast.Node {
+// { already read (delim).
+func (t *tree) beginTag(delim item) ast.Node {
 	switch token := t.next(); token.typ {
 	case itemNamespace:
 		return t.parseNamespace(token)
@@ -234,7 +234,12 @@ func (t *tree) beginTag() ast.Node {
 		return &ast.RawTextNode{token.pos, []byte(specialChars[token.typ])}
 	case itemIdent, itemDollarIdent, itemNull, itemBool, itemFloat, itemInteger, itemString, itemNegate, itemNot, itemLeftBracket, itemLeftParen:
 		// print is implicit, so the tag may also begin with any value type or unary op.
+		// (a token is positioned at its end: a string literal may end lines further
+		// down than the tag begins, which is where the command stands.)
 		t.backup()
+		if token.typ == itemString && strings.Contains(token.val, "\n") {
+			token.pos = delim.pos
+		}
 		fallthrough
 	case itemPrint:
 		return t.parsePrint(token)
